@@ -42,6 +42,19 @@ def run(ctx):
     ctx.alias = {}
     # the transposed document shares nodes with its source (finding F10): anything an export remembers on a node (a memoised cell
     # text) is then read back for the other document - exports must leave nothing behind
+    # the round trip goes through kern pitch strings: the importer / exporter pair of C16.R2 is an exact inverse pair (as R9)
+    from . import c16
+    ctx.alias = {'R2': 'R9'}
+    c16.r2_octave(ctx)
+    ctx.alias = {}
+    # the rebuilt tokens differ from imported ones (their `encoding` is the pitch only, None for rests): whether a cell is written
+    # must not depend on anything but the selection and the category (gate truth table of C05.R3 as R10)
+    from .exporter_facts import RowGate, check_category_gate
+    gate_ = RowGate(ctx)
+    check_category_gate(ctx, 'R10', gate_)
+    for u_ in gate_.unknown:
+        ctx.violation('R10', gate_.f.loc, gate_.f.qualname, f'gate-extra-condition:{" ".join(u_.split())[:60]}',
+                      f'append_row branches on `{u_}`: a rebuilt token (no text of its own) is written differently from an imported one')
     from . import shared
     shared.effect_free(ctx, 'R8', [f'{N.PUBLIC}.dumps'],
                        'the export of the source before the call and the export of the result after it must not communicate through the shared nodes')
